@@ -108,12 +108,12 @@ func lexGoCode(l *lexer) lexFn {
 }
 
 func lexTemplate(l *lexer) lexFn {
-	l.acceptUntil(" ")
-	switch l.current() {
-	case "@goht":
+	l.acceptUntil(" \n\r")
+	if l.current() == "@goht" && l.peek() == ' ' {
 		return lexGohtStart
 	}
-	return nil
+	// not a template declaration; the line belongs to the surrounding Go code
+	return lexGoCode
 }
 
 func lexGohtStart(l *lexer) lexFn {
